@@ -34,38 +34,31 @@ example :
 
 /-! ## `process` only emits events that can be applied -/
 
-/-
-Full statement (false on this tree, see `revoke_under_mapping_panics` below – F-C04-1):
-
-  theorem process_emits_applicable (h : Reachable s) (hp : s.ca.process c = .ok evs) :
-      (s.ca.applyAll evs).isSome ∧ ∃ o', s.objs.stepAll evs = .ok o'
-
-The proved statement has the extra hypothesis `RevokeOk s.ca c`: for a revocation request the
-class the child's name is translated to exists and is past `pending`.  Every other command –
-key rolls, received certificates, entitlements, child and configuration commands, parents,
-repository – is covered without restriction.
--/
-
-/-- For every reachable state and every modelled command, the events `process` returns are
-applied by `apply` without reaching a panic arm or an `unwrap` of `None`, and the pre-save
-listener that maintains the published object sets accepts them. -/
-theorem process_emits_applicable_partial {s : Sys} {c : Cmd} {evs : List Ev} (h : Reachable s)
-    (hok : RevokeOk s.ca c) (hp : s.ca.process c = .ok evs) :
-    (s.ca.applyAll evs).isSome = true ∧ ∃ o', s.objs.stepAll evs = .ok o' := by
+/-- `process_emits_applicable` (full, since fix 43d7eca0): for every reachable state and every
+modelled command – key rolls, received certificates, entitlements, child commands including
+revocation requests under any class-name mapping, configuration, parents, repository – the
+events `process` returns are applied by `apply` without reaching a panic arm or an `unwrap` of
+`None`. -/
+theorem process_emits_applicable {s : Sys} {c : Cmd} {evs : List Ev} (h : Reachable s)
+    (hp : s.ca.process c = .ok evs) : (s.ca.applyAll evs).isSome = true := by
   have hinv := reachable_inv h
-  obtain ⟨s', hrun, _⟩ := readySeq_run hinv (process_readySeq hinv hok hp)
-  obtain ⟨ca', o'⟩ := s'
-  obtain ⟨h1, h2⟩ := runEvs_some_iff.mp hrun
-  exact ⟨by simp [h1], o', h2⟩
+  by_cases hok : RevokeOk s.ca c
+  · obtain ⟨s', hrun, _⟩ := readySeq_run hinv (process_readySeq hinv hok hp)
+    obtain ⟨ca', o'⟩ := s'
+    obtain ⟨h1, _⟩ := runEvs_some_iff.mp hrun
+    simp [h1]
+  · cases c with
+    | childRevokeKey ch childRcn ki => exact revoke_applies hp
+    | _ => exact absurd trivial hok
 
 /-- The same, stated on the generated table: every emitted event is, at the moment it is
 applied, in the panic-free domain read from the source. -/
 theorem process_emits_in_domain {s : Sys} {c : Cmd} {evs : List Ev} (h : Reachable s)
-    (hok : RevokeOk s.ca c) (hp : s.ca.process c = .ok evs) :
+    (hp : s.ca.process c = .ok evs) :
     ∀ (pre post : List Ev) (e : Ev), evs = pre ++ e :: post →
       ∃ s1, s.ca.applyAll pre = some s1 ∧ applicable s1 e = true := by
   intro pre post e hsplit
-  obtain ⟨hsome, _⟩ := process_emits_applicable_partial h hok hp
+  have hsome := process_emits_applicable h hp
   rw [hsplit, applyAll_append] at hsome
   cases h1 : s.ca.applyAll pre with
   | none => simp [h1] at hsome
@@ -77,29 +70,60 @@ theorem process_emits_in_domain {s : Sys} {c : Cmd} {evs : List Ev} (h : Reachab
     | none => simp [h2] at hsome
     | some _ => rfl
 
-
-theorem revoke_under_mapping_panics :
-    ∃ s c evs, Reachable s ∧ s.ca.process c = .ok evs ∧ s.exec c = .panic :=
-  ⟨Sys.run {} witnessMapped, .childRevokeKey 7 0 6,
-    [.childKeyRevoked 7 5 6, .childCerts 5 { removed := [6] }],
-    reachable_run .init _, by decide, by decide⟩
-
-/-- Hence the unrestricted statement is false. -/
-theorem not_process_emits_applicable :
-    ¬ ∀ (s : Sys) (c : Cmd) (evs : List Ev), Reachable s → s.ca.process c = .ok evs →
-      (s.ca.applyAll evs).isSome = true := by
-  intro hall
-  obtain ⟨s, c, evs, hr, hp, hex⟩ := revoke_under_mapping_panics
-  have := hall s c evs hr hp
+/-- Hence no command of any history ends in the panic outcome. -/
+theorem never_panics {s : Sys} (h : Reachable s) (c : Cmd) : s.exec c ≠ .panic := by
+  intro hex
   unfold Sys.exec at hex
-  rw [hp] at hex
-  cases ha : s.ca.applyAll evs with
-  | none => rw [ha] at this; cases this
-  | some ca' =>
-    simp only [ha] at hex
-    cases ho : s.objs.stepAll evs <;> simp [ho] at hex
+  cases hp : s.ca.process c with
+  | error e => simp [hp] at hex
+  | ok evs =>
+    have := process_emits_applicable h hp
+    simp only [hp] at hex
+    cases ha : s.ca.applyAll evs with
+    | none => rw [ha] at this; cases this
+    | some ca' =>
+      simp only [ha] at hex
+      cases ho : s.objs.stepAll evs <;> simp [ho] at hex
 
-/-- Non-vacuity: the same request without the mapping is stored (both sides accept the events). -/
+/-- The pre-save listener that maintains the published object sets accepts the events as well.
+Missing for the unrestricted statement (`RevokeOk`): a revocation request that names a class
+which is still `pending` (no certificate received yet, hence no object sets) – there the
+listener answers the certificate update with an error and the command is not stored
+(`revoke_for_pending_class_refused`; no panic, nothing changes). -/
+theorem listener_accepts_partial {s : Sys} {c : Cmd} {evs : List Ev} (h : Reachable s)
+    (hok : RevokeOk s.ca c) (hp : s.ca.process c = .ok evs) : ∃ o', s.objs.stepAll evs = .ok o' := by
+  have hinv := reachable_inv h
+  obtain ⟨s', hrun, _⟩ := readySeq_run hinv (process_readySeq hinv hok hp)
+  obtain ⟨ca', o'⟩ := s'
+  exact ⟨o', (runEvs_some_iff.mp hrun).2⟩
+
+/-- The corner `listener_accepts_partial` excludes: class 1 exists but is pending, the child
+(certified under class 0) names class 1 in a revocation request. -/
+theorem revoke_for_pending_class_refused :
+    ∃ s c, Reachable s ∧ s.exec c = .listenerError .missingClass ∧ s.next c = s :=
+  ⟨Sys.run {} pendingClassHistory, .childRevokeKey 7 1 6, reachable_run .init _, by decide, by decide⟩
+
+/-- Counter-model of the pinned tree (before 43d7eca0, F-C04-1): with the class test made on the
+child's name, a mapping to a class this CA does not have made `process` return
+`ChildKeyRevoked` for the unknown class, and `apply` unwrapped `None` (certauth.rs:391-393).
+On the fixed tree the same request is answered with no event. -/
+theorem pinned_revoke_under_mapping_panics :
+    let s := Sys.run {} witnessMapped
+    s.ca.pinnedRevoke 7 0 6 = .ok [.childKeyRevoked 7 5 6, .childCerts 5 { removed := [6] }] ∧
+    s.ca.applyAll [.childKeyRevoked 7 5 6, .childCerts 5 { removed := [6] }] = none ∧
+    s.ca.process (.childRevokeKey 7 0 6) = .ok [] := by decide
+
+/-- Counter-model of the pinned tree (F-C03-1): a revocation request under a mapped class name
+was answered positively and ignored; on the fixed tree it revokes. -/
+theorem pinned_revoke_mapped_ignored :
+    let s := Sys.run {} witnessRenamed
+    s.ca.pinnedRevoke 7 5 6 = .ok [] ∧
+    (match s.exec (.childRevokeKey 7 5 6) with
+      | .stored evs s' => evs == [.childKeyRevoked 7 0 6, .childCerts 0 { removed := [6] }] &&
+          ((get s'.ca.classes 0).map (·.certs.issued) == some [])
+      | _ => false) = true := by decide
+
+/-- Non-vacuity: the request without a mapping is stored (both sides accept the events). -/
 example :
     (match (Sys.run {} (witnessMapped.take 6)).exec (.childRevokeKey 7 0 6) with
       | .stored evs _ => evs == [.childKeyRevoked 7 0 6, .childCerts 0 { removed := [6] }]
@@ -261,32 +285,30 @@ theorem activation_moves_everything {s s' : Sys} (h : Reachable s) {na : Int} {e
       rw [stepAll_frame (forClasses_other honcls hB hr2) ho]; exact hg2
 
 /-
-Full statement (`no_loss_no_dup`): for every reachable state, the set of product names the
-current key publishes is the same before and after the activation command.  False on this tree
-whenever a child was unsuspended before (F-C02-1): see `activation_loses_stale_child` below.
+Full statement (`no_loss_no_dup`): for every reachable state, the set of names the current key
+publishes is the same before and after the activation command.
 
-Proved (`no_loss_no_dup_partial`): the statement under the two hypotheses that make it a
-statement about the activation command alone – before the command the current set publishes
-what the class holds (the `objects_mirror` relation of C01) and no key is both issued and
-suspended.  `no_loss_no_dup_quiet_partial` removes the second hypothesis for histories without
-an unsuspension of a suspended child.  Missing: `objects_mirror` as an invariant (that is
-property C01) is not proved here.
+Proved (`no_loss_no_dup_partial`): the statement under the hypothesis that makes it a statement
+about the activation command alone – before the command the current set publishes what the
+class holds (the `objects_mirror` relation of C01).  The second hypothesis it used to need (no
+key both issued and suspended) is an invariant of every history since fix bb96d233
+(`reachable_tidy`).  Missing: `objects_mirror` as an invariant (that is property C01) is not
+proved here.
 -/
 
-/-- If before activation the current set publishes exactly what the class holds and no issued
-key has a (stale) suspended entry, the new key's set publishes exactly the same names after the
-activation command, and the old key's set none. -/
+/-- If before activation the current set publishes exactly what the class holds, the new key's
+set publishes exactly the same names after the activation command, and the old key's set none. -/
 theorem no_loss_no_dup_partial {s s' : Sys} (h : Reachable s) {na : Int} {evs : List Ev}
     (hex : s.exec (.keyrollActivate na) = .stored evs s') {r : Rcn} {rc : Rc} {n c : CertKey}
     (hg : get s.ca.classes r = some rc) (hk : rc.keys = .rollNew n c)
-    {ss cs : ObjSet} (hgo : get s.objs r = some (.staging ss cs))
+    {ss cs : ObjSet} (_hgo : get s.objs r = some (.staging ss cs))
     (hom : ∀ nm : OName, (get cs.published nm).isSome =
       (match nm with
         | .prod k id => (get rc.products (k, id)).isSome
-        | .cer key => (get rc.certs.issued key).isSome))
-    (hns : rc.noStale = true) :
+        | .cer key => (get rc.certs.issued key).isSome)) :
     ∃ cs' os', get s'.objs r = some (.old cs' os') ∧ os'.published = [] ∧
       ∀ nm : OName, (get cs'.published nm).isSome = (get cs.published nm).isSome := by
+  have ht : TidyC rc.certs := reachable_tidy h r rc hg
   obtain ⟨cs', os', h1, h2, _, _, h5⟩ := activation_moves_everything h hex hg hk
   refine ⟨cs', os', h1, h2, ?_⟩
   intro nm
@@ -298,44 +320,28 @@ theorem no_loss_no_dup_partial {s s' : Sys} (h : Reachable s) {na : Int} {evs : 
     cases hi : get rc.certs.issued key with
     | none => rfl
     | some cc =>
-      simp only [Rc.noStale, List.all_eq_true] at hns
-      have := hns (key, cc) (mem_of_get hi)
-      simp only [Bool.not_eq_true', Option.isSome_eq_false_iff, Option.isNone_iff_eq_none] at this
+      have := ht.disj key (by simp [hi])
       simp [this]
 
+/-- Counter-model of the pinned tree (before bb96d233, F-C02-1 seen from the roll): after
+suspend → unsuspend the pinned `add_issued_certificate` left key 6 in both maps; `activate_key`
+then re-issued both entries and the update dropped the active child's certificate. -/
+theorem pinned_activation_loses_stale_child :
+    let cc : ChildCert := { res := [1], na := 60 }
+    let stale := ((({} : ChildCerts).addIssued (6, cc)).suspend (6, cc)).pinnedAddIssued (6, { cc with na := 61 })
+    get stale.issued 6 = some { res := [1], na := 61 } ∧ get stale.suspended 6 = some cc ∧
+    (match stale.activateKey { res := [1, 2], na := 100 } 63 with
+      | .ok upd => get (stale.pinnedApplyUpd upd).issued 6 == none
+      | .error _ => false) = true := by decide
 
-/-- In histories without the F-C02-1 trigger (`ReachableQ`: no certificate issued for a key that
-still has a suspended entry) the stale-entry hypothesis holds by itself: only C01's
-`objects_mirror` relation for the class is left as a hypothesis.  Missing for the full
-statement: `objects_mirror` as an invariant (property C01), and the histories with an
-unsuspension of a suspended child, where the statement is false (`activation_loses_stale_child`). -/
-theorem no_loss_no_dup_quiet_partial {s s' : Sys} (h : ReachableQ s) {na : Int} {evs : List Ev}
-    (hex : s.exec (.keyrollActivate na) = .stored evs s') {r : Rcn} {rc : Rc} {n c : CertKey}
-    (hg : get s.ca.classes r = some rc) (hk : rc.keys = .rollNew n c)
-    {ss cs : ObjSet} (hgo : get s.objs r = some (.staging ss cs))
-    (hom : ∀ nm : OName, (get cs.published nm).isSome =
-      (match nm with
-        | .prod k id => (get rc.products (k, id)).isSome
-        | .cer key => (get rc.certs.issued key).isSome)) :
-    ∃ cs' os', get s'.objs r = some (.old cs' os') ∧ os'.published = [] ∧
-      ∀ nm : OName, (get cs'.published nm).isSome = (get cs.published nm).isSome := by
-  have ht : TidyC rc.certs := reachableQ_tidy h r rc hg
-  have hns : rc.noStale = true := by
-    simp only [Rc.noStale, List.all_eq_true]
-    intro p hp
-    have hs : (get rc.certs.issued p.1).isSome = true :=
-      get_isSome_iff_mem_keys.mpr (List.mem_map.mpr ⟨p, hp, rfl⟩)
-    simp [ht.disj p.1 hs]
-  exact no_loss_no_dup_partial h.reachable hex hg hk hgo hom hns
-
-
-theorem activation_loses_stale_child :
-    ∃ s : Sys, Reachable s ∧
-      (get s.objs 0).map (fun ok => keys ok.currentSet.published) = some [.cer 6, .prod .roa 31] ∧
-      (get (s.next (.keyrollActivate 63)).objs 0).map (fun ok => keys ok.currentSet.published) =
-        some [.prod .roa 31] ∧
-      (get (s.next (.keyrollActivate 63)).ca.children 7).map (·.active) = some true :=
-  ⟨Sys.run {} staleRoll, reachable_run .init _, by decide, by decide, by decide⟩
+/-- The same history on the fixed tree: the roll keeps the unsuspended child's certificate. -/
+example :
+    let s := Sys.run {} staleRoll
+    (get s.objs 0).map (fun ok => keys ok.currentSet.published) = some [.cer 6, .prod .roa 31] ∧
+    (get (s.next (.keyrollActivate 63)).objs 0).map (fun ok => keys ok.currentSet.published) =
+      some [.cer 6, .prod .roa 31] ∧
+    (get (s.next (.keyrollActivate 63)).ca.classes 0).map (fun rc => (keys rc.certs.issued, keys rc.certs.suspended)) =
+      some ([6], []) := by decide
 
 /-- After the command that stores `KeyRollFinished` the old key's set is gone: the class has one
 object set, the current one. -/
